@@ -172,3 +172,18 @@ PROPS["C10"] = {
     "floors": [("all-functions/default", "exact-function", 3000), ("all-variables/default", "exact-variable", 1000),
                ("all-variables/default", "exact-own-variable", 5)],
 }
+
+PROPS["C03"] = {
+    "prepare": [prep_refdecoders],
+    "units": [
+        {"name": "static", "pkg": "./internal/patch", "run": "^TestVerifC03Static$", "timeout": {"quick": 400, "thorough": 2400},
+         "shards": {"quick": 1, "thorough": 4}},
+    ],
+    "rule": "static half: every function of the test binary (pclntab) x synthetic placeholders mapped before the text, just after it, +16MiB, +256MiB, "
+            "+1GiB and near +2GiB; goom's own fixRelativeAddr / fixOriginFuncToTrampoline build the trampoline, which is validated with the reference decoder "
+            "(same instructions, same absolute targets, trailing immediates kept, jump back to original+prefix, no branch into the overwritten bytes, "
+            "refusals leave function and placeholder unchanged). Non-trivial: a prefix with a PC-relative operand or a widened branch, or a refusal; "
+            "distinct by (function, placeholder address).",
+    "assumptions": ["reference decoder is the toolchain's x86asm copy", "placeholders lie within +-2GiB of the function (they are functions of the same text segment)"],
+    "floors": [("static", "accepted", 5000), ("static", "refused", 20)],
+}
